@@ -88,7 +88,9 @@ type ctxKey struct{}
 // runDispatch: sequential identity checks of the registry.
 func runDispatch(c *ctx) {
 	o := c.o
-	all := append([]string{"custom-scheme"}, schemes...)
+	// besides the library's own schemes: names with upper-case letters, digits, dots and '+' (none of the
+	// added names differs from another name only by case)
+	all := append([]string{"custom-scheme", "Demo+Radio", "X25", "zz.v-1", "KISS"}, schemes...)
 	for _, s := range all {
 		transport.UnregisterDialer(s)
 	}
@@ -280,7 +282,7 @@ type rec struct {
 	porcupine.Operation
 }
 
-var histSchemes = []string{"hist-a", "hist-b", "hist-c"}
+var histSchemes = []string{"hist-a", "Hist+B", "hist-c"}
 
 func runHistory(c *ctx, r *rand.Rand, idx int) {
 	o := c.o
